@@ -730,6 +730,18 @@ func (v *Visitor) visit(s *df.AnalyzerState, entrypoint *df.CallNodeArg) error {
 				stack, _ = v.addNext(s, stack, cur, nextNodeWithTrace, cur.Status, df.EdgeInfo{}, seen)
 			}
 
+		// A branch condition can be reached through the outgoing edges of a bound call argument.
+		// Data flows backwards within the function from the condition.
+		case *df.IfNode:
+			for nextNode := range graphNode.In() {
+				nextNodeWithTrace := df.NodeWithTrace{
+					Node:         nextNode,
+					Trace:        cur.Trace,
+					ClosureTrace: cur.ClosureTrace,
+				}
+				stack, _ = v.addNext(s, stack, cur, nextNodeWithTrace, cur.Status, df.EdgeInfo{}, seen)
+			}
+
 		default:
 			panic(fmt.Errorf("unhandled graph node type: %T", graphNode))
 		}
